@@ -64,8 +64,9 @@ namespace {
             r = s = static_cast<int>(substs.size()) - 1;
          }
          else if (op == "bind") {
-            auto& back = general.at(s)->subst(param(p), *exprs.at(v));
-            r = &back == general.at(s) ? s : -1;
+            // (auto&&: whatever subst hands back is compared with the substitution it was called on)
+            auto&& back = general.at(s)->subst(param(p), *exprs.at(v));
+            r = static_cast<const void*>(&back) == static_cast<const void*>(general.at(s)) ? s : -1;
          }
          else if (op == "apply")
             r = id_of((*substs.at(s))[param(p)]);
